@@ -152,6 +152,8 @@ ParamsQuick ==
       \* survival thresholds that are not whole percents (1/8, 3/8, 29/100) on species large enough for the cut-off to move
       PLT({<<8, 4>>, <<7, 5>>}, 280, {1, 2}, {"y", "o"}, {"o"}, Fr(2, 1), {0}, {Fr(1, 8), Fr(3, 8), Fr(29, 100)}),
       P({5, 6}, 2, 1, {"y6", "o", "os"}, Fr(2, 1), {Half}, {1, 2, 3}, {"fresh"}),
+      \* an age significance BELOW one (young species are scaled down: "all age-significance settings")
+      P(1..4, 2, 2, {"y", "os", "o", "y10"}, Fr(1, 2), {Half}, {0}, {"fresh"}),
       P(2..5, 3, 1, {"y", "o"}, Fr(2, 1), {Half}, {2}, {"stale", "almost"}),
       PL({<<12, 4, 2, 2>>, <<14, 3, 3>>, <<14, 4, 2, 2>>}, 84, {1, 3}, {"y"}, {"y", "o", "os"}, Fr(1, 1), {10, 11}) }
 ParamsThorough ==
@@ -161,6 +163,8 @@ ParamsThorough ==
       PLT({<<8, 4>>, <<7, 5>>, <<8, 7>>, <<16, 3>>}, 1680, {1, 2, 3}, {"y", "o", "os"}, {"y", "o"}, Fr(2, 1), {0},
           {Fr(1, 8), Fr(3, 8), Fr(5, 8), Fr(7, 8), Fr(29, 100), Fr(57, 100), Fr(1, 3)}),
       P({7}, 4, 1, {"o", "os"}, Fr(2, 1), {Half}, {2, 3}, {"fresh"}),
+      P(1..5, 3, 2, {"y", "os", "o", "y10", "o11"}, Fr(1, 2), {Half, Fr(1, 4)}, {0, 2}, {"fresh"}),
+      P(1..4, 2, 2, {"y", "o"}, Fr(3, 4), {Half}, {0}, {"fresh"}),
       P({6}, 3, 2, {"y6", "os"}, Fr(2, 1), {Half}, {1, 2, 3}, {"fresh"}),
       P({7}, 3, 2, {"os", "o"}, Fr(2, 1), {Fr(1, 4)}, {0}, {"fresh"}),
       P(2..6, 3, 2, {"y", "o"}, Fr(2, 1), {Half}, {2}, {"stale", "almost"}),
